@@ -231,6 +231,8 @@ class Evaluator:
         if t == "num":
             return float(e[1]), 0.0
         if t == "var":
+            if e[1] == "time":
+                return self.env[e[1]], 1.0
             return self.env[e[1]], self.env.get("der(%s)" % e[1], 0.0)
         if t == "idx":
             d = self.env.get("der(%s)" % e[1])
